@@ -688,12 +688,33 @@ class Ledger(Monitor):
         if not self.enabled:
             return
         if ev["op"] == "rerun" and ev["exc"] is None:
+            if not self.stopped:
+                # joins left partially satisfied when the workflow stopped: a rerun that does not bring their
+                # missing branches must not let the workflow succeed
+                self.partial_at_rerun = [(jn, rt, sorted(set(a[0].task for a in self.joins[(jn, rt)]["arr"])))
+                                         for jn, rt in self.partial_joins()]
+                self.rerun_offer_mark = len(run.offers)
             self.stopped = True  # reruns are followed by the C17 monitor
 
     # ------------------------------------------------------------------ end of history
     def on_end(self, run):
+        if self.enabled and getattr(self, "partial_at_rerun", None) and run.status() == "succeeded" and not run.inflight:
+            after = run.offers[self.rerun_offer_mark:]
+            ran_after = set(o["task"] for o in after)
+            for jn, rt, arrived in self.partial_at_rerun:
+                missing = [i for i in self.m.inbound(jn) if i not in arrived]
+                if jn not in ran_after and not any(i in ran_after for i in missing):
+                    run.viol("C07", "join_partial_at_success", "after the rerun the workflow succeeded although join %s route %s "
+                             "had only %r of its inbound tasks arrived and neither it nor the missing ones ran again"
+                             % (jn, rt, arrived), subject=jn)
         if not self.enabled or self.stopped:
             return
+        if not run.inflight and run.status() in ("running", "resuming") and not run.notes.get("max_steps"):
+            for (jn, route), j in self.joins.items():
+                if j["credits"] > 0:
+                    run.viol("C07", "join_satisfied_never_ran", "nothing is in flight or on offer (status %s) but join %s route %s "
+                             "is satisfied and was not run" % (run.status(), jn, route), subject=jn,
+                             cause=self._cause(run, jn, route))
         status = run.status()
         if run.inflight:
             return
